@@ -92,6 +92,7 @@ Qed.
 Inductive stageA_res (w : ws) (cont : option bool) (c : cframe) (q : Z) (i : io) (tail : list Z) (log : rqlog) (len : Z) : dres -> Prop :=
 | SA_again : forall w' i' log',
     PS w' cont c q -> w_readlen w' = 0 -> w_st w' = w_st w -> w_carry w' = w_carry w -> q < zlen (cf_wire cont c) ->
+    avail_head i = false ->
     io_stream i' = io_stream i -> sched_live (io_sched i') = true ->
     stageA_res w cont c q i tail log len (DRet (w_st w) (-1) (Some EAGAIN) [] w' i' log')
 | SA_data : forall m b2 i' log',
@@ -104,6 +105,16 @@ Inductive stageA_res (w : ws) (cont : option bool) (c : cframe) (q : Z) (i : io)
     stageA_res w cont c q i tail log len
       (decode_tail (set_wpos (set_nrp (set_buf w b2) (q + m)) (w_wpos w + zlen (w_carry w) + m)) i' log' len m 0
                    (ws_buf_size - (w_wpos w + zlen (w_carry w)) - 1)).
+
+Lemma stall_nonempty : forall i q L tail (M : list Z),
+  (avail_head i = true -> io_stream i = []) -> io_stream i = skipn (Z.to_nat q) M ++ tail ->
+  zlen M = L -> 0 <= q -> q < L -> avail_head i = false.
+Proof.
+  intros i q L tail M Hav Hs HM H0 Hq. destruct (avail_head i) eqn:E; [|reflexivity]. exfalso.
+  specialize (Hav eq_refl). rewrite Hs in Hav.
+  assert (zlen (skipn (Z.to_nat q) M ++ tail) = 0) as Hz by (rewrite Hav; reflexivity).
+  rewrite zlen_app, zlen_skipn in Hz by lia. pose proof (zlen_nonneg _ tail). lia.
+Qed.
 
 Lemma stageA : forall w cont c cs q i tail log len,
   PS w cont c q -> w_readlen w = 0 -> conv_valid cont (c :: cs) = true ->
@@ -153,10 +164,10 @@ Proof.
   destruct (L - q >? bufsize) eqn:Egt.
   - (* more than fits into the buffer *)
     destruct (bufsize >? 0) eqn:E0; [|lia].
-    destruct (reader_live bufsize i Hl ltac:(lia)) as (r & i' & tag & Hr & Hl' & Hcase).
+    destruct (reader_live bufsize i Hl ltac:(lia)) as (r & i' & tag & Hr & Hl' & _ & Hcase).
     rewrite (to_u64_id bufsize) by (unfold two64, two31 in *; lia). rewrite Hr.
-    destruct Hcase as [[-> Hs'] | (m & Hm0 & Hmn & Hms & -> & Hs')].
-    + cbn [w_st set_wpos set_buf]. apply SA_again; try assumption; try reflexivity; try (fold L; lia).
+    destruct Hcase as [(-> & Hs' & Hav) | (m & Hm0 & Hmn & Hms & -> & Hs')].
+    + cbn [w_st set_wpos set_buf]. apply SA_again; try assumption; try reflexivity; try (fold L; lia); try (apply (stall_nonempty i q L tail (wire cont c)); assumption || lia).
       unfold PS, w1. cbn [w_buf set_wpos set_buf w_hd w_nrp w_carry w_contop w_wpos]. cbv zeta. fold L cl.
       rewrite Hb1l. repeat split; try assumption; try lia.
     + assert (firstn (Z.to_nat m) (io_stream i) = firstn (Z.to_nat m) (skipn (Z.to_nat q) (wire cont c))) as Hd.
@@ -176,10 +187,10 @@ Proof.
         rewrite skipn_skipn_z by lia. replace (m + q) with (q + m) by lia. reflexivity.
   - rewrite (to_int_id (L - q)) by (unfold two31 in *; lia).
     destruct (L - q >? 0) eqn:E0.
-    + destruct (reader_live (L - q) i Hl ltac:(lia)) as (r & i' & tag & Hr & Hl' & Hcase).
+    + destruct (reader_live (L - q) i Hl ltac:(lia)) as (r & i' & tag & Hr & Hl' & _ & Hcase).
       rewrite (to_u64_id (L - q)) by (unfold two64, two31 in *; lia). rewrite Hr.
-      destruct Hcase as [[-> Hs'] | (m & Hm0 & Hmn & Hms & -> & Hs')].
-      * cbn [w_st set_wpos set_buf]. apply SA_again; try assumption; try reflexivity; try (fold L; lia).
+      destruct Hcase as [(-> & Hs' & Hav) | (m & Hm0 & Hmn & Hms & -> & Hs')].
+      * cbn [w_st set_wpos set_buf]. apply SA_again; try assumption; try reflexivity; try (fold L; lia); try (apply (stall_nonempty i q L tail (wire cont c)); assumption || lia).
         unfold PS, w1. cbn [w_buf set_wpos set_buf w_hd w_nrp w_carry w_contop w_wpos]. cbv zeta. fold L cl.
         rewrite Hb1l. repeat split; try assumption; try lia.
       * assert (firstn (Z.to_nat m) (io_stream i) = firstn (Z.to_nat m) (skipn (Z.to_nat q) (wire cont c))) as Hd.
